@@ -27,14 +27,16 @@ def enc_opt(o):
         dflt = "n" if o["default"] is None else "l" + wl(o["default"])
     else:
         dflt = "1" if o["default"] else "0"
-    return ":".join([o["kind"], str(o["group"]), hx(o["name"]), hx(o["short"]) if o["short"] else "-", hx(o["descr"]),
+    return ":".join([o["kind"].upper() if o.get("late") else o["kind"], str(o["group"]), hx(o["name"]), hx(o["short"]) if o["short"] else "-", hx(o["descr"]),
                      hx(o["env"]), hx(o["metavar"]), dflt, "1" if o["flag"] else "0",
                      "-" if o["rank"] is None else str(o["rank"])])
 
 
 def dec_opt(w):
     f = w.split(":")
-    o = dict(kind=f[0], group=int(f[1]), name=unhx(f[2]), short=None if f[3] == "-" else unhx(f[3]), descr=unhx(f[4]),
+    late = f[0].isupper()
+    f[0] = f[0].lower()
+    o = dict(kind=f[0], late=late, group=int(f[1]), name=unhx(f[2]), short=None if f[3] == "-" else unhx(f[3]), descr=unhx(f[4]),
              env=unhx(f[5]), metavar=unhx(f[6]), flag=f[8] == "1", rank=None if f[9] == "-" else int(f[9]))
     if f[0] == "o":
         o["default"] = None if f[7] == "n" else unhx(f[7][1:])
@@ -47,14 +49,20 @@ def dec_opt(w):
 
 def enc_case(c):
     groups = ",".join(hx(n) + ":" + hx(d) for n, d in c["groups"]) if c["groups"] else "."
-    return " ".join(["U", hx(c["app"]), hx(c["about"]), hx(c["defname"]), "1" if c["pos"] else "0", hx(c["posname"]),
+    pos = "0" if not c["pos"] else ("1" if c.get("posamt") is None else "a%d" % c["posamt"])
+    if c.get("hist"):
+        pos += ":" + c["hist"]
+    return " ".join(["U", hx(c["app"]), hx(c["about"]), hx(c["defname"]), pos, hx(c["posname"]),
                      hx(c["prior"]), groups] + [enc_opt(o) for o in c["opts"]])
 
 
 def dec_case(line):
     w = line.split(" ")
     groups = [] if w[7] == "." else [tuple(unhx(x) for x in g.split(":")) for g in w[7].split(",")]
-    return dict(app=unhx(w[1]), about=unhx(w[2]), defname=unhx(w[3]), pos=w[4] == "1", posname=unhx(w[5]), prior=unhx(w[6]),
+    pos, _, hist = w[4].partition(":")
+    posamt = int(pos[1:]) if pos.startswith("a") else None
+    return dict(app=unhx(w[1]), about=unhx(w[2]), defname=unhx(w[3]), pos=pos not in ("0", "a0"), posamt=posamt, hist=hist,
+                posname=unhx(w[5]), prior=unhx(w[6]),
                 groups=groups, opts=[dec_opt(x) for x in w[8:]])
 
 
@@ -310,6 +318,19 @@ def gen_fp_longword_case(rng):
     return "F %d %d %d %s" % (indent, lp, mw, hx(long_then_short(rng, mw - lp)))
 
 
+def add_history(rng, c):
+    """state that survives between uses: parse() calls before and between the usage() calls on the same parser object
+    (empty / giving / failing argument vectors), a limited positional count, and options declared after a first usage()"""
+    c["hist"] = "".join(rng.sample("egf", rng.randint(1, 3))) if rng.random() < 0.85 else "g"
+    if c["pos"] and rng.random() < 0.6:
+        c["posamt"] = rng.choice([1, 1, 2, 3])
+    if c["opts"] and rng.random() < 0.5:
+        k = rng.randint(1, min(2, len(c["opts"])))
+        for o in c["opts"][-k:]:
+            o["late"] = True
+    return c
+
+
 def small_usage_cases():
     """every shape of a single declaration: kind x letter x flag x default x env x description"""
     descrs = ["", "d", "some words that are long enough to be wrapped once behind column forty of the text"]
@@ -328,6 +349,11 @@ def small_usage_cases():
         yield dict(app="app", about="", defname="arguments", pos=True, posname="args", prior="", groups=[], opts=opts)
 
 
+    # parse history and late declarations
+    for hist, posamt, late in itertools.product(["e", "g", "f", "egf", "gg"], [None, 1, 2], [False, True]):
+        opts = [dict(kind=k, group=0, name=n, short=None, descr="d", env="", metavar="ARG", flag=(k != "t"), rank=None,
+                     default=(False if k == "t" else None), late=(late and n == "cc")) for k, n in zip("otm", ["aa", "bb", "cc"])]
+        yield dict(app="app", about="", defname="arguments", pos=True, posamt=posamt, hist=hist, posname="args", prior="p", groups=[], opts=rerank(opts))
     # byte order: letters are sorted as (signed) char, names as unsigned bytes; groups print in creation order
     def tg(name, short, group=0, flag=False):
         return dict(kind="t", group=group, name=name, short=short, descr="", env="", metavar="ARG", flag=flag, rank=None, default=False)
@@ -403,7 +429,9 @@ class C15(Check):
                   "comparing the exact text, written to four kinds of stream; the oracle (extracted spec functions) judges every difference")
     level_note = ("trusted: Coq kernel, ExtrOcamlBasic extraction, OCaml compiler, the differential harness. Proved about the model only; "
                   "model = code is tested (exact text, bounded-exhaustive + random), not proved. Only exercised by the driver, not "
-                  "proved: stream independence of the real code (fresh stringstream / stringstream with prior content / non-seekable "
+                  "proved: independence of the real code from state left by earlier uses (parse() calls of three kinds before and between "
+                  "usage() calls, a first usage() before late declarations, usage() twice on the same stream kind: in the model the text "
+                  "is a function of the declaration alone) and stream independence of the real code (fresh stringstream / stringstream with prior content / non-seekable "
                   "ostream / std::cout with swapped rdbuf must receive identical text); std::setw + operator<<(char) padding, tellp(), "
                   "std::map name order, std::sort on (signed) char, nitro::format's one-placeholder substitution (modelled as "
                   "concatenation). The address order of the long toggles is forced by the driver (arena operator new during their "
@@ -421,7 +449,9 @@ class C15(Check):
             "|w|+1 = max_width-left_pad +-1, indent = left_pad +-1, max_width <= left_pad, position -1; usage-level and "
             "format_padded-level cases with an unbreakable word (>= 40 bytes behind the option column, >= 72-|app| in the synopsis) "
             "FOLLOWED by several short words, in descriptions, defaults and synopsis entries, incl. two unbreakable words in a row; "
-            "(iii) declarations outside the "
+            "about 30% of the usage cases carry state between uses: parse() calls (empty, giving, failing argument vectors) before and "
+            "between the usage() calls on the same parser object, accept_positionals(k), options declared after a first usage() call, "
+            "and usage() twice on a fresh string stream; (iii) declarations outside the "
             "model's domain (duplicate names, reserved/duplicate group names, empty metavar, two-byte short name): only 'no crash, no "
             "hang' is compared; (iv) corpus. A usage case is "
             "non-trivial when it declares at least one option, a format_padded case when the output has a line break or more than one "
@@ -445,6 +475,10 @@ class C15(Check):
         for i in range(NU):
             k2 = (i % 25 == 7)
             c = gen_usage_case(rng, k2)
+            if rng.random() < 0.3:
+                if rng.random() < 0.4:
+                    c["pos"] = True
+                add_history(rng, c)
             line = enc_case(c)
             if k2_lines(c):
                 self._k2_cases.append(line)
@@ -486,7 +520,7 @@ class C15(Check):
         w = case.split(" ")
         if w[0] == "U":
             kinds = "".join(sorted(set(x[0] for x in w[8:])))
-            return ("U", iobs.split(" ")[0], kinds, min(len(w) - 8, 6), min(len(lines) // 8, 6), (widest > 80) + (widest > 79))
+            return ("U", iobs.split(" ")[0], kinds, min(len(w) - 8, 6), min(len(lines) // 8, 6), (widest > 80) + (widest > 79), w[4].partition(":")[2])
         return ("F", iobs.split(" ")[0], w[1] == "-1", int(w[1]) > int(w[2]), int(w[2]) < int(w[3]), min(len(lines), 5), widest > int(w[3]))
 
     def shrink(self, case):
@@ -512,6 +546,15 @@ class C15(Check):
             yield variant(about="")
         if c["prior"]:
             yield variant(prior="")
+        if c.get("hist"):
+            yield variant(hist="")
+            if len(c["hist"]) > 1:
+                for i in range(len(c["hist"])):
+                    yield variant(hist=c["hist"][:i] + c["hist"][i + 1:])
+        if any(o.get("late") for o in c["opts"]):
+            yield variant(opts=[dict(o, late=False) for o in c["opts"]])
+        if c["pos"] and c.get("posamt") is not None:
+            yield variant(posamt=None)
         if c["pos"]:
             yield variant(pos=False)
         if c["groups"] and all(o["group"] != len(c["groups"]) for o in c["opts"]):
